@@ -62,6 +62,20 @@ def main(argv=None):
 
     try:
         rep = mod.run(args.tier, seed)
+    except BaseException as ex:  # noqa
+        # the exploration itself crashed: an exception escaped from the code under test in a case the harness did not
+        # anticipate.  On the unchanged tree this never happens (it would be a broken check); on a changed tree it means
+        # the change makes an enumerated case blow up, which is reported as a violation with the traceback as replay.
+        traceback.print_exc()
+        common.close_pool()
+        rdir = os.path.join(common.VERIF if common.REPO == "/repo" else os.path.join(common.VERIF, "scratch"), "replays", pid)
+        os.makedirs(rdir, exist_ok=True)
+        path = os.path.join(rdir, "crash.json")
+        with open(path, "w") as fh:
+            json.dump({"property": pid, "cls": "exploration-crashed", "what": f"{type(ex).__name__}: {ex}"[:500],
+                       "traceback": traceback.format_exc()[-4000:]}, fh, indent=1)
+        print(f"VIOLATION property={pid} replay={path}   # exploration crashed with {type(ex).__name__}: {str(ex)[:200]}")
+        return 1
     finally:
         common.close_pool()
     wall = time.time() - t0
